@@ -23,6 +23,8 @@ fn registry() -> Vec<(&'static str, RunFn, ReplayFn, u64)> {
         ("C12", props::c12::run, props::c12::replay, 7200),
         ("C13", props::c13::run, props::c13::replay, 10800),
         ("C14", props::c14::run, props::c14::replay, 10800),
+        ("C15", props::c15::run, props::c15::replay, 10800),
+        ("C16", props::c16::run, props::c16::replay, 10800),
     ]
 }
 
